@@ -158,11 +158,13 @@ def mapFn : P MapFn := do
   | "const" => do let p ← pt; pure (.const p)
   | _ => fail
 
-def optFail : P (Option Pt) := do
+/-- the coordinates the fallible function rejects (`Err(coordinate)`): none, one, or two -/
+def optFail : P (List Pt) := do
   let t ← tok
   match t with
-  | "nofail" => pure none
-  | "failat" => do let p ← pt; pure (some p)
+  | "nofail" => pure []
+  | "failat" => do let p ← pt; pure [p]
+  | "failat2" => do let p ← pt; let q ← pt; pure [p, q]
   | _ => fail
 
 def tryRes : P (Except Pt Geom) := do
@@ -216,24 +218,21 @@ def triFlip (f : Pt → Pt) : Geom → Bool × Bool
   | _ => (false, false)
 
 def handleMap (inp out : List String) : String :=
-  let pin : P (MapFn × Option Pt × Geom) := do
+  let pin : P (MapFn × List Pt × Geom) := do
     let f ← mapFn; let fl ← optFail; let g ← geometry; pure (f, fl, g)
   match P.run pin inp, P.run mapOut out with
   | some (f, fl, g), some o =>
     if !f.exactOn (coordsIter g) then skip "inexact-map" else
     let (flips, nearTie) := triFlip f.apply g
     if nearTie then skip "near-tie-triangle-orientation" else
-    let ff : Pt → Except Pt Pt := fun p => match fl with
-      | some q => if p == q then .error p else .ok (f.apply p)
-      | none => .ok (f.apply p)
+    let ff : Pt → Except Pt Pt := fun p => if fl.any (· == p) then .error p else .ok (f.apply p)
     let m := mapCoords f.apply g
     let mt := tryMapCoords ff g
     let same := o.mapped.str == m.str && o.inPlace.str == m.str && exStr o.tryR == exStr mt &&
       (match o.tryInPlace with | some r => exStr r == exStr mt | none => true)
     -- property clauses on the implementation's outputs
-    let firstFail : Option Pt := match fl with
-      | some q => (fedCoords g).find? (· == q)
-      | none => none
+    -- the error must be the first rejected coordinate in traversal order (exterior before interiors, members in order)
+    let firstFail : Option Pt := (fedCoords g).find? (fun c => fl.any (· == c))
     let shapeOf (x : Geom) : String := (mapCoords (fun _ => ⟨0, 0⟩) x).str
     let prop :=
       if isNormFree g && coordsIter o.mapped != (coordsIter g).map f.apply then
@@ -244,7 +243,8 @@ def handleMap (inp out : List String) : String :=
         | none, .ok a, .ok b => if a.str == o.mapped.str && b.str == o.mapped.str then "PASS" else "FAIL:try-ne-map"
         | some q, .error a, .error b => if a == q && b == q then "PASS" else "FAIL:try-wrong-error"
         | _, _, _ => "FAIL:try-ok-err-mismatch"
-    let cls := "type=" ++ tagOf g ++ (if fl.isSome then (if firstFail.isSome then " fails" else " failpoint-absent") else " total") ++
+    let cls := "type=" ++ tagOf g ++ (if !fl.isEmpty then (if firstFail.isSome then " fails" else " failpoint-absent") else " total") ++
+      (if fl.length == 2 then " two-failpoints" else "") ++
       (if flips then " tri-flip" else "")
     reply same prop cls ("map " ++ m.str ++ " try " ++ exStr mt) (String.intercalate " " out)
   | _, _ => "ERR parse"
